@@ -466,3 +466,28 @@ Proof.
   intros resp n f cs s H.
   pose proof (busy_bound resp cs (init n f) s (si_len _ _ _ (safe_init resp n f)) H). lia.
 Qed.
+
+(* ---- the root loop of WalkParallel::visit ---- *)
+
+Lemma pre_loop_no_quit : forall eresp roots stack, (forall k, eresp k <> WQuit) ->
+  pre_loop eresp roots stack = Some (stack ++ good_roots roots).
+Proof.
+  intros eresp roots. induction roots as [|[t|k] r IH]; intros stack NQ; cbn [pre_loop good_roots flat_map].
+  - rewrite app_nil_r. auto.
+  - rewrite IH by auto. rewrite <- app_assoc. auto.
+  - specialize (NQ k) as Q. destruct (eresp k); try congruence; rewrite IH by auto; auto.
+Qed.
+
+Theorem visit_roots_all_once_proof : forall eresp resp n roots,
+  (forall k, eresp k <> WQuit) -> (forall x, resp x <> WQuit) ->
+  match visit_start eresp n roots with
+  | Some s0 => s0 = init n (good_roots roots) /\
+               forall s, reach resp s0 s -> all_exited s ->
+                         Permutation (visited s) (ids_under_skip resp (good_roots roots))
+  | None => good_roots roots = []
+  end.
+Proof.
+  intros eresp resp n roots NQe NQ. unfold visit_start. rewrite pre_loop_no_quit by auto. cbn [app].
+  unfold start. destruct (good_roots roots) as [|t f] eqn:E; auto.
+  split; auto. intros s R A. eapply final_visits_all_once_proof; eauto.
+Qed.
